@@ -146,6 +146,7 @@ func c07IterSkips(body Edge, header *ssa.BasicBlock, ct *cut) bool {
 // c07MapOfE: v is a load of <root receiver>.<field> seen from node e (the
 // helper's own receiver resolves to the root's receiver).
 func c07MapOfE(v ssa.Value, field string, e *c05Env) bool {
+	v, e = e.up(v)
 	u, ok := v.(*ssa.UnOp)
 	if !ok || u.Op != token.MUL || c05Cur.F("graph."+field) == "" || !c05IsFieldAddrOf(u.X, c07GraphT, c05Cur.F("graph."+field)) {
 		return false
@@ -183,7 +184,7 @@ func c07R1Index(c *Ctx) {
 	const R = "C07.R1.inverse-relation"
 	c.Expect(R, 20)
 	var fns []*ssa.Function
-	for _, f := range c.P.FuncsOfPkg("internal/graph") {
+	for _, f := range c05FuncsOfPkg(c.P, "internal/graph") {
 		if f.Parent() == nil && len(CallsTo(f, "~/content.Successors")) > 0 {
 			fns = append(fns, f)
 		}
@@ -195,6 +196,7 @@ func c07R1Index(c *Ctx) {
 	for _, fn := range fns {
 		tn := FnName(fn)
 		root := c05Root(fn)
+		root.Wide = true
 		node := c07DescParam(fn)
 		sc := CallsTo(fn, "~/content.Successors")[0]
 		S := ResultOf(sc, 0)
@@ -243,44 +245,43 @@ func c07R1Index(c *Ctx) {
 			ifelse(okN, "nodes[key(node)] = node on every successful path", "a successful index does not record nodes[key(node)] = node: Predecessors of its successors would yield an empty descriptor for it"))
 		c.Check(R, tn+"|fresh-successor-set-recorded", fn.Pos(), okS,
 			ifelse(okS, "successors[key(node)] = set.New() on every successful path", "a successful index does not install a fresh successors[key(node)] set: Remove cannot undo the node's edges (extras after delete)"))
-		// the loop over S (any loop form)
-		loop, idx, body := c05SliceLoop(fn, func(v ssa.Value) bool { return SameValue(v, S) })
-		if loop == nil {
-			if len(Loops(fn)) == 0 {
+		// the traversal of S (any loop form, range-over-func included)
+		var it *c05Iter
+		nIt := 0
+		for _, e := range c05TreeEnvs(root, 1) {
+			if e.Iter != nil {
+				continue
+			}
+			for _, x := range c05ItersIn(e) {
+				nIt++
+				if bs := x.Base(); bs != nil && bs.Kind == "slice" {
+					if w, wat := bs.CollAt.up(bs.Coll); wat.isRoot() && SameValue(w, S) && x.In.isRoot() {
+						it = x
+					}
+				}
+			}
+		}
+		if it == nil {
+			if nIt == 0 {
 				c.Violation(R, tn+"|loop-over-successors", fn.Pos(), "no loop over the successors: no edge is recorded")
 			} else {
-				c.Undecided(R, tn+"|loop-over-successors", fn.Pos(), "no loop of the index step visits every element of the successors slice (range / index forms are recognised)")
+				c.Undecided(R, tn+"|loop-over-successors", fn.Pos(), "no loop of the index step visits every element of the successors slice (range / index / iterator forms are recognised)")
 			}
 			continue
 		}
-		okL := true
+		okL := it.Exact()
 		for _, a := range c05MaybeNilAtoms(fn) {
-			if !c05AtomMustPass(a, newCut().Instr(loop.Header.Instrs[0])) {
+			if !c05AtomMustPass(a, newCut().Instr(it.Entry())) {
 				okL = false
 			}
 		}
-		c.Check(R, tn+"|loop-over-successors", blockPos(loop.Header), okL, "every successful path runs the loop over all successors")
-		isElem := func(x ssa.Value, at *c05Env) bool {
-			if !at.isRoot() {
-				return false
-			}
-			for _, r := range Roots(c05Unspill(x)) {
-				ld, ok := strip(r).(*ssa.UnOp)
-				if !ok || ld.Op != token.MUL {
-					return false
-				}
-				ia, ok := ld.X.(*ssa.IndexAddr)
-				if !ok || !SameValue(ia.X, S) || !idx[ia.Index] {
-					return false
-				}
-			}
-			return true
-		}
+		c.Check(R, tn+"|loop-over-successors", it.Entry().Pos(), okL, "every successful path runs the loop over all successors")
+		isElem := func(x ssa.Value, at *c05Env) bool { return it.IsElem(x, at, "val") }
 		isSuccKey := func(v ssa.Value, e *c05Env) bool { return c07KeyOfE(v, e, isElem) }
 		// where must a freshly created predecessor set be stored by: the end of the iteration / of the helper
 		iterEnds := func(e *c05Env) []ssa.Instruction {
-			if e.isRoot() {
-				return []ssa.Instruction{loop.Header.Instrs[0]}
+			if it.Loop != nil && e.Fn == it.In.Fn {
+				return []ssa.Instruction{it.Loop.Header.Instrs[0]}
 			}
 			var out []ssa.Instruction
 			for _, r := range Returns(e.Fn) {
@@ -304,12 +305,13 @@ func c07R1Index(c *Ctx) {
 			}
 			return false
 		}}
-		addP := c05PassSpec{Instr: func(in ssa.Instruction, e *c05Env) bool {
-			call, ok := in.(*ssa.Call)
-			if !ok || !c07SetMethod(call, "Add") || !isNodeKey(call.Call.Args[1], e) {
-				return false
-			}
-			for _, r := range Roots(call.Call.Args[0]) {
+		// the stored predecessors[key(successor)] set: the looked-up entry, or a fresh set stored under that key
+		// before the iteration (the helper) ends; also as the result of a get-or-create helper
+		var storedSet func(v ssa.Value, e *c05Env, d int) bool
+		storedSet = func(v ssa.Value, e *c05Env, d int) bool {
+			v, e = e.up(v)
+			rs := Roots(v)
+			for _, r := range rs {
 				r = strip(r)
 				if ex, isE := r.(*ssa.Extract); isE {
 					r = ex.Tuple
@@ -339,25 +341,36 @@ func c07R1Index(c *Ctx) {
 						continue
 					}
 				}
+				if call, isC := r.(*ssa.Call); isC && d < 2 {
+					if h := e.helper(call); h != nil && h.Signature.Results().Len() == 1 {
+						ch := &c05Env{Fn: h, Call: call, Parent: e}
+						good, nr := true, 0
+						for _, ret := range Returns(h) {
+							if ReachableFromEntry(ret) {
+								nr++
+								if !storedSet(ret.Results[0], ch, d+1) {
+									good = false
+								}
+							}
+						}
+						if good && nr > 0 {
+							continue
+						}
+					}
+				}
 				return false
 			}
-			return true
-		}}
-		inLoop := func(ct *cut) []ssa.Instruction {
-			var out []ssa.Instruction
-			for in := range ct.instrs {
-				if loop.Contains(in) {
-					out = append(out, in)
-				}
-			}
-			return out
+			return len(rs) > 0
 		}
-		sIns, pIns := inLoop(c05PassCut(root, addS)), inLoop(c05PassCut(root, addP))
-		okA := len(sIns) > 0 && c07EveryIteration(body, loop.Header, sIns...)
-		c.Check(R, tn+"|successor-edge-every-iteration", blockPos(body.To), okA,
+		addP := c05PassSpec{Instr: func(in ssa.Instruction, e *c05Env) bool {
+			call, ok := in.(*ssa.Call)
+			return ok && c07SetMethod(call, "Add") && isNodeKey(call.Call.Args[1], e) && storedSet(call.Call.Args[0], e, 0)
+		}}
+		okA := !it.Skips(addS)
+		c.Check(R, tn+"|successor-edge-every-iteration", it.Entry().Pos(), okA,
 			ifelse(okA, "successors[key(node)].Add(key(successor)) runs in every iteration", "an iteration can finish without recording key(successor) in successors[key(node)]: Remove would leave node in that successor's predecessor set (extra after delete)"))
-		okB := len(pIns) > 0 && c07EveryIteration(body, loop.Header, pIns...)
-		c.Check(R, tn+"|predecessor-edge-every-iteration", blockPos(body.To), okB,
+		okB := !it.Skips(addP)
+		c.Check(R, tn+"|predecessor-edge-every-iteration", it.Entry().Pos(), okB,
 			ifelse(okB, "predecessors[key(successor)].Add(key(node)) runs in every iteration on the stored set (created and stored when absent)", "an iteration can finish without adding key(node) to the stored predecessors[key(successor)] set: Predecessors(successor) omits node"))
 	}
 }
@@ -373,48 +386,42 @@ func c07R1Remove(c *Ctx) {
 	}
 	tn := FnName(fn)
 	root := c05Root(fn)
+	root.Wide = true
 	node := c07DescParam(fn)
 	isNode := func(x ssa.Value, at *c05Env) bool { return at.isRoot() && c05ParamOf(x) == node }
 	isNodeKey := func(v ssa.Value, e *c05Env) bool { return c07KeyOfE(v, e, isNode) }
-	var loop *Loop
-	var key ssa.Value
-	var body Edge
-	for _, l := range Loops(fn) {
-		ranged, next, b, _, ok := l.RangeMap()
-		if !ok {
+	// the traversal of successors[key(node)] (map range, or range-over-func over its keys)
+	var it *c05Iter
+	for _, x := range c05ItersIn(root) {
+		bs := x.Base()
+		if bs == nil || bs.Kind != "map" {
 			continue
 		}
-		good := true
-		for _, r := range Roots(ranged) {
+		coll, cat := bs.CollAt.up(bs.Coll)
+		rs := Roots(coll)
+		good := len(rs) > 0
+		for _, r := range rs {
 			r = strip(r)
 			if e, isE := r.(*ssa.Extract); isE {
 				r = e.Tuple
 			}
 			lk, isL := r.(*ssa.Lookup)
-			if !isL || !c07MapOfE(lk.X, "successors", root) || !isNodeKey(lk.Index, root) {
+			if !isL || !c07MapOfE(lk.X, "successors", cat) || !isNodeKey(lk.Index, cat) {
 				good = false
 			}
 		}
-		if !good {
-			continue
-		}
-		loop, body = l, b
-		for _, r := range *next.Referrers() {
-			if e, ok := r.(*ssa.Extract); ok && e.Index == 1 {
-				key = e
-			}
+		if good && x.Exact() {
+			it = x
 		}
 	}
-	if loop == nil || key == nil {
+	if it == nil {
 		c.Violation(R, tn+"|loop-over-own-successors", fn.Pos(), "Remove does not range over successors[key(node)]: the node stays in its successors' predecessor sets (extras after delete)")
 		return
 	}
-	c.OK(R, tn+"|loop-over-own-successors", blockPos(loop.Header), "Remove ranges over successors[key(node)]")
-	isKey := func(v ssa.Value, e *c05Env) bool {
-		w, at := e.up(v)
-		return at.isRoot() && strip(w) == key
-	}
+	c.OK(R, tn+"|loop-over-own-successors", it.Entry().Pos(), "Remove ranges over successors[key(node)]")
+	isKey := func(v ssa.Value, e *c05Env) bool { return it.IsElem(v, e, "key") }
 	isEntry := func(v ssa.Value, e *c05Env) bool {
+		v, e = e.up(v)
 		rs := Roots(v)
 		if len(rs) == 0 {
 			return false
@@ -457,15 +464,8 @@ func c07R1Remove(c *Ctx) {
 			})
 			return out
 		}}
-	uc := c05PassCut(root, unlink)
-	inLoopN := 0
-	for in := range uc.instrs {
-		if loop.Contains(in) {
-			inLoopN++
-		}
-	}
-	okD := inLoopN > 0 && !c07IterSkips(body, loop.Header, uc)
-	c.Check(R, tn+"|unlink-every-iteration", blockPos(body.To), okD,
+	okD := !it.Skips(unlink)
+	c.Check(R, tn+"|unlink-every-iteration", it.Entry().Pos(), okD,
 		ifelse(okD, "predecessors[successorKey].Delete(key(node)) runs in every iteration", "an iteration can finish without deleting key(node) from predecessors[successorKey]: Predecessors(successor) keeps reporting the removed node"))
 	// delete(m.predecessors, k): only the current key, only when its set is empty — in Remove or in a helper it calls
 	nDel := 0
@@ -482,13 +482,12 @@ func c07R1Remove(c *Ctx) {
 					zero = append(zero, lenZeroEdges(e.Fn, in.(*ssa.Call).Call.Args[0])...)
 				}
 			})
-			// also `len(entry) > 0` style tests: the false edge of "non-empty"
 			ok := isKey(a[1], e) && len(zero) > 0
 			if ok {
-				if e.isRoot() {
-					ok = loop.Contains(call.(ssa.Instruction)) && !reach(body.To, 0, call.(ssa.Instruction), newCut().Edges(zero...))
+				if it.Loop != nil && e.Fn == it.In.Fn {
+					ok = it.Loop.Contains(call.(ssa.Instruction)) && !reach(it.Body.To, 0, call.(ssa.Instruction), newCut().Edges(zero...))
 				} else {
-					ok = MustPass(call.(ssa.Instruction), newCut().Edges(zero...))
+					ok = it.Contains(call.(ssa.Instruction), e) && MustPass(call.(ssa.Instruction), newCut().Edges(zero...))
 				}
 			}
 			c.Check(R, tn+"|entry-dropped-only-when-empty", call.Pos(), ok,
@@ -506,7 +505,7 @@ func c07R1Remove(c *Ctx) {
 			if !ok || CalleeName(call) != "builtin:delete" {
 				return false
 			}
-			return c07MapOfE(call.Call.Args[0], fld, e) && isNodeKey(call.Call.Args[1], e) && !(e.isRoot() && loop.Contains(in))
+			return c07MapOfE(call.Call.Args[0], fld, e) && isNodeKey(call.Call.Args[1], e) && !it.Contains(in, e)
 		}})
 		ok := len(ct.instrs) > 0
 		for _, r := range Returns(fn) {
@@ -529,102 +528,266 @@ func c07R1Predecessors(c *Ctx) {
 		return
 	}
 	tn := FnName(fn)
+	root := c05Root(fn)
+	root.Wide = true
 	node := c07DescParam(fn)
-	isNodeKey := func(v ssa.Value) bool { return c07IsKeyOf(v, c07IsParam(node)) }
-	var loop *Loop
-	var key ssa.Value
-	var body Edge
-	for _, l := range Loops(fn) {
-		ranged, next, b, _, ok := l.RangeMap()
-		if !ok {
-			continue
-		}
-		good := true
-		for _, r := range Roots(ranged) {
+	isNode := func(x ssa.Value, at *c05Env) bool { return at.isRoot() && c05ParamOf(x) == node }
+	isNodeKey := func(v ssa.Value, e *c05Env) bool { return c07KeyOfE(v, e, isNode) }
+	// v (seen from e) is predecessors[key(node)]
+	isPredSet := func(v ssa.Value, e *c05Env) bool {
+		v, e = e.up(v)
+		rs := Roots(v)
+		for _, r := range rs {
 			r = strip(r)
-			if e, isE := r.(*ssa.Extract); isE {
-				r = e.Tuple
+			if ex, isE := r.(*ssa.Extract); isE {
+				r = ex.Tuple
 			}
 			lk, isL := r.(*ssa.Lookup)
-			if !isL || !c07MapOf(lk.X, "predecessors") || !isNodeKey(lk.Index) {
-				good = false
+			if !isL || !c07MapOfE(lk.X, "predecessors", e) || !isNodeKey(lk.Index, e) {
+				return false
 			}
 		}
-		if good {
-			loop, body = l, b
-			for _, r := range *next.Referrers() {
-				if e, ok := r.(*ssa.Extract); ok && e.Index == 1 {
-					key = e
+		return len(rs) > 0
+	}
+	overPredSet := func(it *c05Iter) bool {
+		bs := it.Base()
+		return bs != nil && bs.Kind == "map" && isPredSet(bs.Coll, bs.CollAt)
+	}
+	// x (seen from e) is nodes[k] for the current key k of it; miss collects the "k not in nodes" edges of a comma-ok lookup
+	isNodeOf := func(x ssa.Value, e *c05Env, it *c05Iter, miss *cut) bool {
+		x, e = e.up(x)
+		x = strip(x)
+		if ex, isE := x.(*ssa.Extract); isE && ex.Index == 0 {
+			if lk, isL := ex.Tuple.(*ssa.Lookup); isL {
+				for _, r := range *lk.Referrers() {
+					if e1, is1 := r.(*ssa.Extract); is1 && e1.Index == 1 {
+						_, fe := BoolTests(e.Fn, Aliases(e1))
+						miss.Edges(fe...)
+					}
 				}
+				x = lk
 			}
 		}
+		lk, ok := x.(*ssa.Lookup)
+		return ok && c07MapOfE(lk.X, "nodes", e) && it.IsElem(lk.Index, e, "key")
 	}
-	if loop == nil || key == nil {
-		c.Violation(R, tn+"|ranges-over-own-predecessor-set", fn.Pos(), "Predecessors does not range over predecessors[key(node)]")
-		return
-	}
-	c.OK(R, tn+"|ranges-over-own-predecessor-set", blockPos(loop.Header), "Predecessors ranges over predecessors[key(node)]")
-	var app ssa.Instruction
-	okElems := true
-	ct := newCut()
-	for _, call := range CallsTo(fn, "builtin:append") {
-		if !loop.Contains(call.(ssa.Instruction)) {
-			continue
+	// The result, in any of the forms: nil; the slice appended to in a loop over the set; slices.Collect /
+	// AppendSeq / Sorted of an iterator that yields nodes[k] for every key k of the set; a helper returning such.
+	found, okElems, okRes := false, true, true
+	var where token.Pos
+	tops := newCut() // instructions of Predecessors itself that run the traversal
+	var resolve func(v ssa.Value, e *c05Env, top ssa.Instruction, d int)
+	resolve = func(v ssa.Value, e *c05Env, top ssa.Instruction, d int) {
+		v, e2 := e.up(v)
+		if e2 != e {
+			// the value comes from further up the chain: its "top" instruction is unknown unless it is the root
+			if !e2.isRoot() {
+				okRes = false
+				return
+			}
+			top = nil
 		}
-		app = call.(ssa.Instruction)
-		ct.Instr(app)
-		el := c05VariadicElems(call.Common().Args[1])
-		if len(el) != 1 {
-			okElems = false
-		}
-		for _, e := range el {
-			e = strip(e)
-			if ex, isE := e.(*ssa.Extract); isE && ex.Index == 0 {
-				// `if d, ok := m.nodes[k]; ok { append }`: skipping is allowed only on the !ok edge of this lookup
-				if lk, isL := ex.Tuple.(*ssa.Lookup); isL {
-					for _, r := range *lk.Referrers() {
-						if e1, is1 := r.(*ssa.Extract); is1 && e1.Index == 1 {
-							_, fe := BoolTests(fn, Aliases(e1))
-							ct.Edges(fe...)
+		e = e2
+		for _, r := range Roots(v) {
+			r = strip(r)
+			if k, isK := r.(*ssa.Const); isK && k.Value == nil {
+				continue
+			}
+			// `for k := range <iterator over the set> { res = append(res, m.nodes[k]) }`: the accumulator is a
+			// variable captured by the loop body (a synthetic closure); the function only ever stores nil into it
+			if ld, isLd := r.(*ssa.UnOp); isLd && ld.Op == token.MUL {
+				if cell, isA := ld.X.(*ssa.Alloc); isA {
+					handled := false
+					for _, x := range c05ItersIn(e) {
+						if x.Y == nil || !overPredSet(x) {
+							continue
+						}
+						mc, _ := x.Call.Common().Args[0].(*ssa.MakeClosure)
+						var fv *ssa.FreeVar
+						for i, b := range mc.Bindings {
+							if b == ssa.Value(cell) {
+								fv = x.Y.Fn.FreeVars[i]
+							}
+						}
+						if fv == nil {
+							continue
+						}
+						ct := newCut()
+						n := 0
+						for _, ref := range *fv.Referrers() {
+							st, isSt := ref.(*ssa.Store)
+							if !isSt || st.Addr != ssa.Value(fv) {
+								continue
+							}
+							n++
+							ap, isAp := strip(st.Val).(*ssa.Call)
+							if !isAp || CalleeName(ap) != "builtin:append" {
+								okRes = false
+								continue
+							}
+							if l2, ok := ap.Call.Args[0].(*ssa.UnOp); !ok || l2.X != ssa.Value(fv) {
+								okRes = false
+							}
+							el := c05VariadicElems(ap.Call.Args[1])
+							if len(el) != 1 || !isNodeOf(el[0], x.Y, x, ct) {
+								okElems = false
+							}
+							ct.Instr(st)
+						}
+						if n == 0 {
+							continue
+						}
+						handled = true
+						found, where = true, x.Entry().Pos()
+						if e.isRoot() {
+							tops.Instr(x.Entry())
+						} else if top != nil {
+							tops.Instr(top)
+						}
+						for _, st := range storesTo(cell) {
+							if !isNilConst(st.Val) {
+								okRes = false
+							}
+						}
+						if !x.Exact() || x.SkipsCut(ct) {
+							okElems = false
 						}
 					}
-					e = lk
+					if handled {
+						continue
+					}
 				}
 			}
-			lk, ok := e.(*ssa.Lookup)
-			if !ok || !c07MapOf(lk.X, "nodes") || strip(lk.Index) != key {
-				okElems = false
+			call, isCall := r.(*ssa.Call)
+			if !isCall {
+				okRes = false
+				continue
+			}
+			topOf := func() ssa.Instruction {
+				if top != nil {
+					return top
+				}
+				return call
+			}
+			switch name := CalleeName(call); {
+			case name == "builtin:append":
+				var it *c05Iter
+				for _, x := range c05ItersIn(e) {
+					if x.Loop != nil && x.Loop.Contains(call) && overPredSet(x) {
+						it = x
+					}
+				}
+				if it == nil {
+					okRes = false
+					continue
+				}
+				found, where = true, it.Entry().Pos()
+				if e.isRoot() {
+					tops.Instr(it.Entry())
+				} else {
+					tops.Instr(topOf())
+				}
+				ct := newCut()
+				for _, ap := range CallsTo(e.Fn, "builtin:append") {
+					if !it.Loop.Contains(ap.(ssa.Instruction)) {
+						continue
+					}
+					if ap != ssa.CallInstruction(call) && !SameValue(ap.Common().Args[0], call) && !func() bool {
+						for _, r2 := range Roots(ap.Common().Args[0]) {
+							if strip(r2) == ssa.Value(call) {
+								return true
+							}
+						}
+						for _, r2 := range Roots(call.Call.Args[0]) {
+							if v2, ok := strip(r2).(*ssa.Call); ok && ssa.CallInstruction(v2) == ap {
+								return true
+							}
+						}
+						return false
+					}() {
+						continue
+					}
+					ct.Instr(ap.(ssa.Instruction))
+					el := c05VariadicElems(ap.Common().Args[1])
+					if len(el) != 1 || !isNodeOf(el[0], e, it, ct) {
+						okElems = false
+					}
+				}
+				if it.SkipsCut(ct) {
+					okElems = false
+				}
+				// the accumulator starts empty
+				for _, r2 := range Roots(call.Call.Args[0]) {
+					r2 = strip(r2)
+					if k, isK := r2.(*ssa.Const); isK && k.Value == nil {
+						continue
+					}
+					if c2, isC := r2.(*ssa.Call); isC && it.Loop.Contains(c2) && CalleeName(c2) == "builtin:append" {
+						continue
+					}
+					if mk, isMk := r2.(*ssa.MakeSlice); isMk {
+						if n, isN := constInt(mk.Len); isN && n == 0 {
+							continue
+						}
+					}
+					okRes = false
+				}
+			case name == "slices.Collect" || name == "slices.AppendSeq" || name == "slices.Sorted" || name == "slices.SortedFunc" || name == "slices.SortedStableFunc":
+				args := call.Call.Args
+				si := 0
+				if name == "slices.AppendSeq" {
+					si = 1
+					for _, r2 := range Roots(args[0]) {
+						if k, isK := strip(r2).(*ssa.Const); !isK || k.Value != nil {
+							okRes = false
+						}
+					}
+				}
+				seq := c05SeqOf(args[si], e)
+				if seq == nil || seq.Site == nil || seq.Inner == nil || !overPredSet(seq.Inner) {
+					okRes = false
+					continue
+				}
+				found, where = true, call.Pos()
+				tops.Instr(topOf())
+				ct := newCut().Instr(seq.Site.(ssa.Instruction))
+				ya := seq.Site.Common().Args
+				if len(ya) != 1 || !isNodeOf(ya[0], seq.SiteAt, seq.Inner, ct) || !seq.Inner.Exact() || seq.Inner.SkipsCut(ct) {
+					okElems = false
+				}
+			default:
+				h := e.helper(call)
+				if h == nil || d >= 2 || h.Signature.Results().Len() == 0 {
+					okRes = false
+					continue
+				}
+				ch := &c05Env{Fn: h, Call: call, Parent: e}
+				for _, ret := range Returns(h) {
+					if ReachableFromEntry(ret) {
+						resolve(ret.Results[0], ch, topOf(), d+1)
+					}
+				}
 			}
 		}
 	}
-	ok := app != nil && okElems && !c07IterSkips(body, loop.Header, ct)
-	c.Check(R, tn+"|one-result-per-predecessor", blockPos(body.To), ok,
-		ifelse(ok, "every iteration appends exactly nodes[k] for the current predecessor key", "an iteration can skip a predecessor, append something other than nodes[k], or append more than one element (omission / extra / duplicate)"))
-	if app == nil {
+	for _, r := range Returns(fn) {
+		if ReachableFromEntry(r) && len(r.Results) > 0 {
+			resolve(r.Results[0], root, nil, 0)
+		}
+	}
+	if !found {
+		c.Violation(R, tn+"|ranges-over-own-predecessor-set", fn.Pos(), "Predecessors does not traverse predecessors[key(node)] (loop / iterator forms are recognised)")
 		return
 	}
-	// the result is that slice
-	okRes := true
-	for _, r := range Returns(fn) {
-		if !ReachableFromEntry(r) || len(r.Results) == 0 {
-			continue
-		}
-		for _, v := range Roots(r.Results[0]) {
-			if k, isK := v.(*ssa.Const); isK && k.Value == nil {
-				continue
-			}
-			if call, isCall := v.(*ssa.Call); isCall && ct.instrs[call] {
-				continue
-			}
-			okRes = false
-		}
-	}
-	c.Check(R, tn+"|returns-the-collected-slice", fn.Pos(), okRes, ifelse(okRes, "the result is nil or the slice built in the loop", "Predecessors returns something other than the collected slice"))
-	// a result is produced without the loop only when predecessors[key(node)] is absent
-	miss := newCut().Instr(loop.Header.Instrs[0])
+	c.OK(R, tn+"|ranges-over-own-predecessor-set", where, "Predecessors traverses predecessors[key(node)]")
+	c.Check(R, tn+"|one-result-per-predecessor", where, okElems,
+		ifelse(okElems, "every iteration contributes exactly nodes[k] for the current predecessor key", "an iteration can skip a predecessor, contribute something other than nodes[k], or contribute more than one element (omission / extra / duplicate)"))
+	c.Check(R, tn+"|returns-the-collected-slice", fn.Pos(), okRes, ifelse(okRes, "the result is nil or the slice collected from the traversal", "Predecessors returns something other than the collected slice"))
+	// a result is produced without the traversal only when predecessors[key(node)] is absent
+	miss := tops
 	AllInstrs(fn, func(in ssa.Instruction) {
 		lk, isL := in.(*ssa.Lookup)
-		if !isL || !lk.CommaOk || !c07MapOf(lk.X, "predecessors") || !isNodeKey(lk.Index) {
+		if !isL || !lk.CommaOk || !c07MapOfE(lk.X, "predecessors", root) || !isNodeKey(lk.Index, root) {
 			return
 		}
 		for _, r := range *lk.Referrers() {
@@ -641,7 +804,7 @@ func c07R1Predecessors(c *Ctx) {
 		}
 	}
 	c.Check(R, tn+"|empty-only-when-no-predecessor-entry", fn.Pos(), okMiss,
-		ifelse(okMiss, "every return either ran the loop over predecessors[key(node)] or took the lookup's absent edge", "Predecessors can return without consulting predecessors[key(node)] (e.g. when the node itself is not stored): parents of an absent node are omitted"))
+		ifelse(okMiss, "every return either ran the traversal of predecessors[key(node)] or took the lookup's absent edge", "Predecessors can return without consulting predecessors[key(node)] (e.g. when the node itself is not stored): parents of an absent node are omitted"))
 }
 
 // c07R1Key: the graph key descriptor.FromOCI(d) carries d's MediaType, Digest and Size.
@@ -936,7 +1099,7 @@ func c07R2Delete(c *Ctx) {
 func c07R2Load(c *Ctx) {
 	const R = "C07.R2.every-push-indexed"
 	n := 0
-	for _, fn := range c.P.FuncsOfPkg("content/oci") {
+	for _, fn := range c05FuncsOfPkg(c.P, "content/oci") {
 		if fn.Parent() != nil {
 			continue
 		}
@@ -982,31 +1145,17 @@ func c07R2Load(c *Ctx) {
 			}
 			return true
 		}
-		loop, idx, body := c05SliceLoop(fn, isS)
-		if loop == nil {
-			c.Undecided(R, tn+"|reindex-every-manifest", fn.Pos(), "no loop over every element of index.Manifests recognised (range / index forms)")
+		var it *c05Iter
+		for _, x := range c05ItersIn(root) {
+			if bs := x.Base(); bs != nil && bs.Kind == "slice" && bs.CollAt.isRoot() && isS(bs.Coll) && x.Exact() {
+				it = x
+			}
+		}
+		if it == nil {
+			c.Undecided(R, tn+"|reindex-every-manifest", fn.Pos(), "no loop over every element of index.Manifests recognised (range / index / iterator forms)")
 			continue
 		}
-		isElem := func(x ssa.Value, at *c05Env) bool {
-			if !at.isRoot() {
-				return false
-			}
-			rs := Roots(c05Unspill(x))
-			if len(rs) == 0 {
-				return false
-			}
-			for _, r := range rs {
-				ld, ok := strip(r).(*ssa.UnOp)
-				if !ok || ld.Op != token.MUL {
-					return false
-				}
-				ia, ok := ld.X.(*ssa.IndexAddr)
-				if !ok || !isS(ia.X) || !idx[ia.Index] {
-					return false
-				}
-			}
-			return true
-		}
+		isElem := func(x ssa.Value, at *c05Env) bool { return it.IsElem(x, at, "val") }
 		var fromElem func(v ssa.Value, e *c05Env, d int) bool
 		fromElem = func(v ssa.Value, e *c05Env, d int) bool {
 			w, at := e.up(v)
@@ -1046,45 +1195,48 @@ func c07R2Load(c *Ctx) {
 			ias = append(ias, call)
 			return true
 		}}
-		ct := c05PassCut(root, spec)
+		be := it.BodyEnv()
+		ct := c05PassCut(be, spec)
 		var inLoop []ssa.Instruction
 		for in := range ct.instrs {
-			if loop.Contains(in) {
+			if it.Contains(in, be) {
 				inLoop = append(inLoop, in)
 			}
 		}
-		ok := (len(ct.instrs) > 0 || len(ct.edges) > 0) && !c07IterSkips(body, loop.Header, ct)
-		c.Check(R, tn+"|reindex-every-manifest", blockPos(loop.Header), ok,
+		ok := (len(ct.instrs) > 0 || len(ct.edges) > 0) && !it.SkipsCut(ct)
+		c.Check(R, tn+"|reindex-every-manifest", it.Entry().Pos(), ok,
 			ifelse(ok, "every iteration over index.Manifests calls graph.IndexAll for that entry (or returns an error)", "an entry of index.Manifests can be skipped when the layout is (re)opened: its edges are missing from Predecessors after reopen"))
 		okErr, detail := true, "the IndexAll error reaches the caller"
 		seen := map[ssa.Instruction]bool{}
-		for _, in := range append(inLoop, func() []ssa.Instruction {
-			var o []ssa.Instruction
-			for _, ia := range ias {
-				o = append(o, ia.(ssa.Instruction))
+		flow := func(call ssa.CallInstruction) {
+			if seen[call.(ssa.Instruction)] {
+				return
 			}
-			return o
-		}()...) {
-			if seen[in] {
-				continue
+			seen[call.(ssa.Instruction)] = true
+			var r ErrFlowResult
+			if it.Y != nil && call.Parent() == it.Y.Fn {
+				r = c05YieldErrFlow(call, it)
+			} else {
+				r = c05ErrFlow(call, ErrFlowOpts{})
 			}
-			seen[in] = true
-			if r := c05ErrFlow(in.(ssa.CallInstruction), ErrFlowOpts{}); !r.OK {
+			if !r.OK {
 				okErr, detail = false, r.Detail
 			}
 		}
-		for in := range loop.Blocks {
-			for _, x := range in.Instrs {
-				if call, isCall := x.(*ssa.Call); isCall && c05Helper(call, fn) != nil && ErrOf(call) != nil && !seen[x] {
-					if r := c05ErrFlow(call, ErrFlowOpts{}); !r.OK {
-						okErr, detail = false, r.Detail
-					}
-				}
-			}
+		for _, in := range inLoop {
+			flow(in.(ssa.CallInstruction))
 		}
-		c.Check(R, tn+"|reindex-error-returned", blockPos(loop.Header), okErr, detail)
+		for _, ia := range ias {
+			flow(ia)
+		}
+		AllInstrs(be.Fn, func(x ssa.Instruction) {
+			if call, isCall := x.(*ssa.Call); isCall && it.Contains(x, be) && c05Helper(call, be.Fn) != nil && ErrOf(call) != nil {
+				flow(call)
+			}
+		})
+		c.Check(R, tn+"|reindex-error-returned", it.Entry().Pos(), okErr, detail)
 		// callers pass their own graph
-		for _, g := range c.P.FuncsOfPkg("content/oci") {
+		for _, g := range c05FuncsOfPkg(c.P, "content/oci") {
 			for _, call := range Calls(g, func(string) bool { return true }) {
 				if StaticCallee(call) != fn || graphParam == nil {
 					continue
@@ -1114,7 +1266,7 @@ func c07R2Load(c *Ctx) {
 func c07R2GC(c *Ctx) {
 	const R = "C07.R2.every-push-indexed"
 	n := 0
-	for _, fn := range c.P.FuncsOfPkg("content/oci") {
+	for _, fn := range c05FuncsOfPkg(c.P, "content/oci") {
 		for _, G := range CallsTo(fn, "~/internal/graph.NewMemory") {
 			var ias []ssa.CallInstruction
 			otherGraph := false
@@ -1140,7 +1292,10 @@ func c07R2GC(c *Ctx) {
 			var installs []ssa.Instruction
 			AllInstrs(fn, func(in ssa.Instruction) {
 				st, isStore := in.(*ssa.Store)
-				if !isStore || !SameValue(st.Val, G.Value()) {
+				if !isStore {
+					return
+				}
+				if w, _ := c05Root(fn).up(st.Val); !SameValue(st.Val, G.Value()) && !SameValue(w, G.Value()) {
 					return
 				}
 				if fa, isFA := st.Addr.(*ssa.FieldAddr); isFA && c05IsNamedType(fa.Type().(*types.Pointer).Elem(), "internal/graph", "Memory") {
@@ -1165,12 +1320,16 @@ func c07R2GC(c *Ctx) {
 		c.OK(R, "~/content/oci|rebuilt-graph-installed", token.NoPos, "the OCI store never rebuilds its graph")
 	}
 	// and nobody else replaces s.graph of a shared store
-	for _, u := range c05FieldUses(c.P.FuncsOfPkg("content/oci"), "~/content/oci.Store", c05Cur.F("oci.graph")) {
+	for _, u := range c05FieldUses(c05FuncsOfPkg(c.P, "content/oci"), "~/content/oci.Store", c05Cur.F("oci.graph")) {
 		st, isStore := u.Use.(*ssa.Store)
 		if !isStore || pathIsFresh(accessPath(u.Addr.X)) {
 			continue
 		}
 		rs := Roots(st.Val)
+		if w, at := c05Root(u.Fn).up(st.Val); at.isRoot() && len(rs) == 1 {
+			// through a carrier struct built in this function
+			rs = Roots(w)
+		}
 		ok := len(rs) == 1
 		if ok {
 			call, isCall := rs[0].(*ssa.Call)
@@ -1239,7 +1398,7 @@ func c07R2IndexAll(c *Ctx) {
 	// step on its own descriptor parameter and dispatches over the result with syncutil.Go
 	var T *ssa.Function
 	var idxCall ssa.CallInstruction
-	for _, a := range c.P.FuncsOfPkg("internal/graph") {
+	for _, a := range c05FuncsOfPkg(c.P, "internal/graph") {
 		if len(CallsTo(a, nGo)) == 0 || len(CallsTo(a, "~/content.Successors")) > 0 {
 			continue
 		}
@@ -1331,6 +1490,10 @@ func c07R4(c *Ctx) {
 }
 
 var c07Mutants = []Mutant{
+	// R1 with range-over-func traversals (round 4): the iterator forms are accepted only when every element is visited
+	{Name: "remove-iterates-filtered-successors", File: "internal/graph/memory.go", Old: "\tfor successorKey := range m.successors[nodeKey] {\n", New: "\tfor successorKey := range func(yield func(descriptor.Descriptor) bool) {\n\t\tfor k := range m.successors[nodeKey] {\n\t\t\tif k.Size > 0 && !yield(k) {\n\t\t\t\treturn\n\t\t\t}\n\t\t}\n\t} {\n", Expect: "C07.R1.inverse-relation|(*~/internal/graph.Memory).Remove|loop-over-own-successors"},
+	{Name: "index-iterator-skips-successors", File: "internal/graph/memory.go", Old: "\tfor _, successor := range successors {\n", New: "\tfor successor := range func(yield func(ocispec.Descriptor) bool) {\n\t\tfor i, d := range successors {\n\t\t\tif i%2 == 0 && !yield(d) {\n\t\t\t\treturn\n\t\t\t}\n\t\t}\n\t} {\n", Expect: "C07.R1.inverse-relation|(*~/internal/graph.Memory).index|loop-over-successors"},
+	{Name: "index-yield-body-skips-edges", File: "internal/graph/memory.go", Old: "\tfor _, successor := range successors {\n\t\tsuccessorKey := descriptor.FromOCI(successor)\n", New: "\tfor successor := range func(yield func(ocispec.Descriptor) bool) {\n\t\tfor _, d := range successors {\n\t\t\tif !yield(d) {\n\t\t\t\treturn\n\t\t\t}\n\t\t}\n\t} {\n\t\tsuccessorKey := descriptor.FromOCI(successor)\n\t\tif successor.Size == 0 {\n\t\t\tcontinue\n\t\t}\n", Expect: "C07.R1.inverse-relation|(*~/internal/graph.Memory).index|successor-edge-every-iteration"},
 	// R1 index
 	{Name: "index-drops-predecessor-edge", File: "internal/graph/memory.go", Old: "\t\tpredecessorSet.Add(nodeKey)\n", New: "", Expect: "C07.R1.inverse-relation|(*~/internal/graph.Memory).index|predecessor-edge-every-iteration"},
 	{Name: "index-new-predecessor-set-not-stored", File: "internal/graph/memory.go", Old: "\t\t\tm.predecessors[successorKey] = predecessorSet\n", New: "", Expect: "C07.R1.inverse-relation|(*~/internal/graph.Memory).index|predecessor-edge-every-iteration"},
@@ -1406,7 +1569,7 @@ func c07R2Algorithms(c *Ctx) {
 		return ok && n.Obj().Name() == "Algorithm" && n.Obj().Pkg() != nil && n.Obj().Pkg() == dp
 	}
 	n := 0
-	for _, f := range c.P.FuncsOfPkg("content/oci") {
+	for _, f := range c05FuncsOfPkg(c.P, "content/oci") {
 		if f.Signature.Results().Len() != 1 || !types.Identical(f.Signature.Results().At(0).Type(), types.Typ[types.Bool]) {
 			continue
 		}
